@@ -116,6 +116,116 @@ pub fn shrink(text: &str, level_name: &str, cfg: &LuaFormatConfig, n: &NonIdem) 
     (small, cfg2, n2)
 }
 
+// ---- stable core ---------------------------------------------------------------------------
+// The general case stream is not idempotent in ~25% of its cases on the pinned tree (open findings), which
+// leaves no room to tell a new instability from the known ones by signature. The stable core is a restricted
+// grammar (no comments, no semicolons, no tables, no long calls; nested blocks, simple statements and one-line
+// `if c then s end` statements whose length is tuned to land within a few columns of max_line_width at the
+// source *or* at the formatted indentation), written with an indentation that differs from the configured one,
+// under the default configuration with only max_line_width / indent width varied. On the pinned tree every
+// such program is stable after one pass, so any instability here is reported under its own signature, which
+// no known finding covers.
+const CORE_NAMES: &[&str] = &["ok", "n", "value", "items", "err", "count", "state", "self", "i", "result"];
+
+fn core_expr(rng: &mut Rng, depth: u32) -> String {
+    match rng.below(if depth >= 2 { 4 } else { 8 }) {
+        0 | 1 => rng.pick(CORE_NAMES).to_string(),
+        2 => format!("{}", rng.below(1000)),
+        3 => format!("\"{}\"", rng.pick(&["a", "msg", "not found", "x y z"])),
+        4 => format!("{} {} {}", core_expr(rng, depth + 1), rng.pick(&["+", "-", "*", "..", "==", "~=", "<", "and", "or"]), core_expr(rng, depth + 1)),
+        5 => format!("{}({})", rng.pick(&["f", "check", "tostring", "m.get"]), core_expr(rng, depth + 1)),
+        6 => format!("not {}", rng.pick(CORE_NAMES)),
+        _ => format!("{}.{}", rng.pick(CORE_NAMES), rng.pick(&["x", "len", "name"])),
+    }
+}
+
+fn core_simple(rng: &mut Rng, last: bool) -> String {
+    match rng.below(if last { 4 } else { 3 }) {
+        0 => format!("local {} = {}", rng.pick(CORE_NAMES), core_expr(rng, 1)),
+        1 => format!("{} = {}", rng.pick(CORE_NAMES), core_expr(rng, 1)),
+        2 => format!("{}({}, {})", rng.pick(&["f", "check", "print"]), core_expr(rng, 1), core_expr(rng, 1)),
+        _ => format!("return {}", core_expr(rng, 1)),
+    }
+}
+
+/// One-line `if` whose total length (without indentation) is `len`, padded through a string literal.
+fn core_one_line_if(rng: &mut Rng, len: usize) -> String {
+    let (head, tail) = match rng.below(3) {
+        0 => ("if not ok then return \"", "\" end"),
+        1 => ("if n > 0 then err = \"", "\" end"),
+        _ => ("if state then print(\"", "\") end"),
+    };
+    let fill = len.saturating_sub(head.len() + tail.len()).max(1);
+    format!("{head}{}{tail}", "x".repeat(fill))
+}
+
+fn core_block(rng: &mut Rng, depth: usize, width: usize, cfg_indent: usize, unit: &str, out: &mut String) {
+    let n = rng.range(1, 4);
+    let ind = unit.repeat(depth);
+    for k in 0..n {
+        let last = k + 1 == n;
+        match rng.below(if depth >= 4 { 4 } else { 10 }) {
+            0 | 1 => {
+                out.push_str(&ind);
+                out.push_str(&core_simple(rng, last));
+                out.push('\n');
+            }
+            2 | 3 => {
+                // tuned to the limit at the source indentation or at the formatted one
+                let src_col = ind.chars().map(|c| if c == '\t' { 4 } else { 1 }).sum::<usize>();
+                let base = if rng.bool() { src_col } else { depth * cfg_indent };
+                let reserve = rng.below(14) as i64 - 7;
+                let len = (width as i64 - base as i64 + reserve).max(30) as usize;
+                out.push_str(&ind);
+                out.push_str(&core_one_line_if(rng, len));
+                out.push('\n');
+            }
+            4 => {
+                out.push_str(&format!("{ind}if {} then\n", core_expr(rng, 1)));
+                core_block(rng, depth + 1, width, cfg_indent, unit, out);
+                if rng.chance(1, 3) {
+                    out.push_str(&format!("{ind}else\n"));
+                    core_block(rng, depth + 1, width, cfg_indent, unit, out);
+                }
+                out.push_str(&format!("{ind}end\n"));
+            }
+            5 => {
+                out.push_str(&format!("{ind}while {} do\n", core_expr(rng, 1)));
+                core_block(rng, depth + 1, width, cfg_indent, unit, out);
+                out.push_str(&format!("{ind}end\n"));
+            }
+            6 => {
+                out.push_str(&format!("{ind}do\n"));
+                core_block(rng, depth + 1, width, cfg_indent, unit, out);
+                out.push_str(&format!("{ind}end\n"));
+            }
+            7 => {
+                out.push_str(&format!("{ind}for i = 1, {} do\n", rng.pick(CORE_NAMES)));
+                core_block(rng, depth + 1, width, cfg_indent, unit, out);
+                out.push_str(&format!("{ind}end\n"));
+            }
+            _ => {
+                out.push_str(&format!("{ind}local function {}({})\n", rng.pick(&["check", "step", "run"]), rng.pick(&["", "ok", "ok, n"])));
+                core_block(rng, depth + 1, width, cfg_indent, unit, out);
+                out.push_str(&format!("{ind}end\n"));
+            }
+        }
+        if last {
+            break;
+        }
+    }
+}
+
+pub fn gen_core(rng: &mut Rng) -> (String, LuaFormatConfig) {
+    let mut cfg = LuaFormatConfig::default();
+    cfg.layout.max_line_width = rng.pick(&[80usize, 100, 120]);
+    cfg.indent.width = rng.pick(&[2usize, 4, 4, 8]);
+    let unit = rng.pick(&["", " ", "  ", "   ", "    ", "      ", "        ", "\t"]);
+    let mut text = String::new();
+    core_block(rng, 0, cfg.layout.max_line_width, cfg.indent.width, unit, &mut text);
+    (text, cfg)
+}
+
 fn replay_json(text: &str, level_name: &str, cfg: &LuaFormatConfig, family: &str, original_len: usize) -> Value {
     json!({"text": text, "level": level_name, "cfg": fo::config_to_json(cfg), "cfg_delta": fo::config_delta(cfg), "family": family, "original_len": original_len})
 }
@@ -263,6 +373,36 @@ pub fn run(ctx: &mut Ctx) {
             }
             Outcome::Panic(p) => {
                 ctx.violated(&format!("C06:panic:{}", p.sig()), &format!("{} at {}", p.message, p.location), replay_json(&case.text, case.level_name, &case.cfg, case.family, case.text.len()));
+            }
+        }
+    }
+
+    // ---- stable core (see gen_core) ------------------------------------------------------
+    let ncore = ctx.budget(1_500, 40_000);
+    for i in 0..ncore {
+        if ctx.out_of_time() {
+            break;
+        }
+        let mut rng = Rng::new(ctx.case_seed(i) ^ 0xc06e);
+        let (text, cfg) = gen_core(&mut rng);
+        ctx.clause("family:stable-core");
+        let fp = fnv(text.as_bytes()) ^ fnv(fo::config_to_json(&cfg).to_string().as_bytes());
+        match eval(&text, "Lua54", &cfg) {
+            Outcome::Held { changed, len } => {
+                ctx.clause("c:stable-core-second-pass-equal");
+                ctx.held(fp, len >= 16 && changed);
+            }
+            Outcome::Bad(ni) => {
+                let sig = format!("C06:stable-core-not-idempotent:at={}", ni.at);
+                let (small, cfg2, n2) = if ctx.sig_counts.get(&sig).copied().unwrap_or(0) < 2 { shrink(&text, "Lua54", &cfg, &ni) } else { (text.clone(), cfg.clone(), ni.clone()) };
+                ctx.violated(
+                    &format!("C06:stable-core-not-idempotent:at={}", n2.at),
+                    &format!("{}; first differing line: pass 1 {:?}, pass 2 {:?}; input {:?}; cfg {:?}", n2.shape, n2.first_diff_line.0, n2.first_diff_line.1, clip(&small, 300), fo::config_delta(&cfg2)),
+                    replay_json(&small, "Lua54", &cfg2, "stable-core", text.len()),
+                );
+            }
+            Outcome::Panic(p) => {
+                ctx.violated(&format!("C06:panic:{}", p.sig()), &format!("{} at {}", p.message, p.location), replay_json(&text, "Lua54", &cfg, "stable-core", text.len()));
             }
         }
     }
